@@ -55,6 +55,9 @@ type travScen struct {
 	target   [20]byte
 	k, alpha int
 	rej      map[string]bool // rejected IPs (hex)
+	kClosest []*gnode        // honest network: the K nodes closest to the target
+	honest   bool            // honest finite network: every node answers under its true ID with the true K closest nodes
+	learned  []cand          // every contact the lookup was told about (seeds, node lists of delivered replies)
 	rejID    map[string]bool // rejected node IDs (hex): the filter depends on the identity, as Server.TraversalNodeFilter does
 	needData bool
 	nodes    map[string]*gnode
@@ -297,6 +300,7 @@ func (r *Run) newTravScen(i int) *travScen {
 	t.needData = r.rng.Intn(3) == 0
 	t.mute = i%5 == 4 // oracle-only class: replies may use both Nodes and Nodes6
 	nn := 5 + r.rng.Intn(36)
+	t.honest = i%4 == 1
 	var list []*gnode
 	for j := 0; j < nn; j++ {
 		g := &gnode{port: 1000 + j, id: r.structuredID(t.target)}
@@ -346,8 +350,46 @@ func (r *Run) newTravScen(i int) *travScen {
 			t.rejID[hx(g.id[:])] = true // rejected under its advertised ID; ID-less seeds still reach it
 		}
 	}
+	if t.honest {
+		// The last sentence of C02: distinct IDs and addresses, nobody silent or lying, no filters, and every
+		// reply lists exactly the K nodes of the network closest to the target (under their true IDs).
+		t.needData = false
+		t.rej, t.rejID = map[string]bool{}, map[string]bool{}
+		seenID := map[[20]byte]bool{}
+		for j, g := range list {
+			for seenID[g.id] || g.id == ([20]byte{}) {
+				g.id = r.randID()
+			}
+			seenID[g.id] = true
+			if j > 0 && hx(g.ip) == hx(list[j-1].ip) {
+				g.ip = r.randIP(0)
+			}
+			g.silent, g.respID, g.both = false, g.id, false
+			tk := fmt.Sprintf("tok%d", j)
+			g.token = &tk
+		}
+		t.nodes = map[string]*gnode{}
+		for _, g := range list {
+			t.nodes[g.key()] = g
+		}
+		sorted := append([]*gnode{}, list...)
+		sort.Slice(sorted, func(a, b int) bool { return distTo(t.target, sorted[a].id).Cmp(distTo(t.target, sorted[b].id)) < 0 })
+		kc := sorted
+		if len(kc) > t.k {
+			kc = kc[:t.k]
+		}
+		t.kClosest = kc
+		for _, g := range list {
+			for _, o := range kc {
+				g.nbrs = append(g.nbrs, cand{hasID: true, id: o.id, ip: o.ip, port: o.port})
+			}
+		}
+	}
 	dup := false
 	for _, g := range list {
+		if t.honest {
+			break
+		}
 		for j := 0; j < r.rng.Intn(9); j++ {
 			o := list[r.rng.Intn(len(list))]
 			c := cand{hasID: true, id: o.id, ip: o.ip, port: o.port}
@@ -415,6 +457,7 @@ func (t *travScen) addNodes(cs []cand) {
 	for _, c := range cs {
 		t.reported[hx(c.ip)+"/"+itoa(c.port)] = true
 	}
+	t.learned = append(t.learned, cs...)
 	t.op.AddNodes(toAmis(cs))
 	t.ev("AddNodes %s", candsArg(cs))
 	snap, ok := t.quiesce()
@@ -505,6 +548,7 @@ func (t *travScen) play() {
 			}
 			t.op_("TRAV stalled", "ok")
 			t.oracleStalled()
+			t.oracleHonest()
 		case <-time.After(5 * time.Second):
 			t.viol("C03", "lookup does not report stalled although nothing is in flight")
 			return
@@ -591,6 +635,7 @@ func (t *travScen) release(key string, p *parkedQ) {
 		for _, c := range g.nbrs {
 			t.reported[hx(c.ip)+"/"+itoa(c.port)] = true
 		}
+		t.learned = append(t.learned, g.nbrs...)
 		// truth for C02: a responder that passes both filters
 		passData := !t.needData || g.token != nil
 		if !t.rej[hx(p.addr.IP)] && !t.rejID[hx(g.respID[:])] && passData {
@@ -704,9 +749,58 @@ func (t *travScen) oracleStalled() {
 			t.viol("C03", "stalled reported although an unqueried contact is no farther than the farthest member: "+amiStr(a))
 		}
 	}
+	// The same clause judged from what the lookup was TOLD (seeds and the node lists of the replies it
+	// was handed), not from its own frontier: a learned contact that passes the node filter and was
+	// never queried must be farther than the farthest member of a full result set.
+	t.mu.Lock()
+	per := map[string]int{}
+	for k, n := range t.perAddr {
+		per[k] = n
+	}
+	t.mu.Unlock()
+	for _, c := range t.learned {
+		k := hx(c.ip) + "/" + itoa(c.port)
+		if per[k] > 0 || t.rej[hx(c.ip)] || (c.hasID && t.rejID[hx(c.id[:])]) {
+			continue
+		}
+		switch {
+		case !full:
+			t.viol("C03", "stalled reported with the result set not full although a learned contact that passes the node filter was never queried: "+k)
+		case c.hasID && distTo(t.target, c.id).Cmp(far) < 0:
+			t.viol("C03", "stalled reported although a learned contact strictly closer than the farthest member was never queried: "+hx(c.id[:])+"/"+k)
+		}
+	}
 }
 
 var _ = generics.Some[int]
+
+// C02, last sentence: in an honest finite network the finished lookup holds exactly the K closest nodes
+// (C02.honest_network_exact is the theorem; this is the same statement judged on the implementation).
+func (t *travScen) oracleHonest() {
+	if !t.honest || t.entered == 0 {
+		return
+	}
+	t.r.hist("honest-network/finished")
+	_, _, raw := t.closestList()
+	got := map[string]bool{}
+	for _, e := range raw {
+		var ip []byte
+		if e.Addr.Addr().IsValid() {
+			ip = e.Addr.Addr().AsSlice()
+		}
+		got[hx(e.ID[:])+"/"+hx(ip)+"/"+itoa(int(e.Addr.Port()))] = true
+	}
+	for _, g := range t.kClosest {
+		k := hx(g.id[:]) + "/" + hx(g.ip) + "/" + itoa(g.port)
+		if !got[k] {
+			t.viol("C02", fmt.Sprintf("honest network of %d nodes (every node answers with the true %d closest): the finished lookup does not hold the close node %s", len(t.nodes), t.k, k))
+			return
+		}
+	}
+	if len(raw) != len(t.kClosest) {
+		t.viol("C02", fmt.Sprintf("honest network: the finished lookup holds %d contacts, the network's K closest are %d", len(raw), len(t.kClosest)))
+	}
+}
 
 // A consumer waits on Stalled() from the moment the seeds are in, as every caller of the package
 // does (Start, AddNodes, then <-Stalled()): a stalled signal offered too early is then really received.
